@@ -5,7 +5,7 @@ Line-protocol driver for engine `writer` (property C09).
 
 Case line:  `w buf=<BUF> dbg=<0|1|*> k=<n> j=<n> rt=<0|1> rc=<n> ; op ; op ; …`
   * `buf`  = `Writer::BUF_SIZE` extracted from the source, `dbg` = profile of the harness binary
-    (`*` = unknown: the number of flushes is then not reported), `k`, `j`, `rc` = sink / read-back
+    (`*` = either profile: corpus lines; `ub` is then `na`), `k`, `j`, `rc` = sink / read-back
     delivery parameters (the model does not depend on them: std's `write_all` is trusted),
     `rt=1` = also read the produced text back.
   * ops: `W <val>` = `writer.write(&val)`, `C <code point>` = `write_char`, `F` = `flush()` followed
@@ -15,8 +15,10 @@ Case line:  `w buf=<BUF> dbg=<0|1|*> k=<n> j=<n> rt=<0|1> rc=<n> ; op ; op ; …
     string passed as `&str` (`S:` = as `String`), `x:<hex>` / `X:<hex>` a literal string,
     `v <n> <val>*n` a `Vec`, `t <n> <val>*n` a tuple (2 ≤ n ≤ 8).
 
-Answer: `M <view> fl=<flushes> | V <view> | S <view according to the spec>` with
-`view = obs=[len:fnv,…] drop=len:fnv[:hex] fmt=ok rt=ok|na|bad`.
+Answer: `M <view> | V <view> | S <view according to the spec>` with
+`view = obs=[len:fnv,…] drop=len:fnv[:hex] fmt=ok rt=ok|na|bad ub=ok|na|bad@i` (`ub`: lines for the
+flush-per-write build only — nothing pending after any operation). The number of flushes is appended
+to the raw part only for diagnostic lines (`fl=1` in the header), which `check` never compares.
 
 Second line kind (C09 bridge, `Model/IoRoundTrip.lean`): write → drop → **Reader model** → values.
   `r buf=<BUF> dbg=<0|1|*> rbuf=<reader BUF> rc=<n> alt=<0|1> ; op ; op ; …`   (same ops)
@@ -157,6 +159,8 @@ structure Hdr where
   buf : Nat
   dbg : Option Bool
   rt : Bool
+  /-- diagnostic line (`fl=1`): append the model's number of `write_all` calls to the raw part -/
+  fl : Bool
 
 def hdrField (ts : List String) (key : String) : Option String :=
   ts.findSome? (fun t => match t.splitOn "=" with
@@ -171,7 +175,7 @@ def parseHdr (s : String) : Option Hdr :=
       let dbg : Option (Option Bool) :=
         if d = "0" then some (some false) else if d = "1" then some (some true) else if d = "*" then some none else none
       match dbg with
-      | some dbg => some ⟨buf, dbg, rt = "1"⟩
+      | some dbg => some ⟨buf, dbg, rt = "1", hdrField fs "fl" = some "1"⟩
       | none => none
     | _, _, _ => none
   | _ => none
@@ -196,19 +200,30 @@ def rtStr (rt : Bool) (ops : List Op) (text : ByteArray) : String :=
     if (ls.zip toks).all (fun p => leafReadsBack p.1 p.2) then "ok" else "bad"
   else "na"
 
-def viewStr (obs : List String) (final : ByteArray) (rt : String) : String :=
-  s!"obs=[{",".intercalate obs}] drop={dropStr final} fmt=ok rt={rt}"
+def viewStr (obs : List String) (final : ByteArray) (rt ub : String) : String :=
+  s!"obs=[{",".intercalate obs}] drop={dropStr final} fmt=ok rt={rt} ub={ub}"
 
-/-- Model run: returns the observations at every `F` and the final state. -/
-def modelRun (c : Cfg) : List Op → WState → List String → Except Panic (List String × WState)
-  | [], s, obs => .ok (obs.reverse, s)
-  | o :: os, s, obs =>
+/-- Model run: returns the observations at every `F`, the index of the first operation after which
+    something was still pending (`none` = the sink always held everything written so far), and the
+    final state. -/
+def modelRun (c : Cfg) : List Op → WState → List String → Nat → Option Nat →
+    Except Panic (List String × Option Nat × WState)
+  | [], s, obs, _, behind => .ok (obs.reverse, behind, s)
+  | o :: os, s, obs, i, behind =>
     match runOp c s o with
     | .error e => .error e
     | .ok s' =>
+      let behind := if behind.isNone && s'.pend.size != 0 then some i else behind
       match o with
-      | .flush => modelRun c os s' (obsStr s'.sink :: obs)
-      | _ => modelRun c os s' obs
+      | .flush => modelRun c os s' (obsStr s'.sink :: obs) (i + 1) behind
+      | _ => modelRun c os s' obs (i + 1) behind
+
+/-- `ub` (unbuffered) component of the view: only stated for flush-per-write (debug) lines. -/
+def ubStr (dbg : Option Bool) (behind : Option Nat) : String :=
+  match dbg, behind with
+  | some true, none => "ok"
+  | some true, some i => s!"bad@{i}"
+  | _, _ => "na"
 
 /-- Spec run: the expected sink contents at every `F` and at the end. -/
 def specRun : List Op → ByteArray → List String → List String × ByteArray
@@ -233,16 +248,15 @@ def handle (line : String) : String :=
       let c : Cfg := ⟨h.buf, h.dbg.getD false⟩
       let (sobs, stext) := specRun ops ByteArray.empty []
       let inDom := ops.all opInDomain ∧ Op.validAll ops ∧ 39 ≤ h.buf
-      let sview := if inDom then viewStr sobs stext (rtStr h.rt ops stext) else "any"
-      match modelRun c ops WState.init [] with
+      -- spec: in a flush-per-write build nothing is ever pending after an operation (`debug_unbuffered`)
+      let sview := if inDom then viewStr sobs stext (rtStr h.rt ops stext) (ubStr h.dbg none) else "any"
+      match modelRun c ops WState.init [] 0 none with
       | .error e => answer e.toString sview
-      | .ok (obs, s) =>
+      | .ok (obs, behind, s) =>
         let s' := drop s
-        let v := viewStr obs s'.sink (rtStr h.rt ops s'.sink)
-        let fl := match h.dbg with
-          | some _ => toString s'.flushes
-          | none => "*"
-        answer3 s!"{v} fl={fl}" v sview
+        let v := viewStr obs s'.sink (rtStr h.rt ops s'.sink) (ubStr h.dbg behind)
+        -- the number of `write_all` calls is not part of the compared result; diagnostic lines only
+        if h.fl then answer3 s!"{v} fl={s'.flushes}" v sview else answer3 v v sview
     | _, _ => "M INVALID | V INVALID | S any"
 
 /-! ### `r` lines: write, drop, read back through the Reader model -/
